@@ -843,3 +843,530 @@ Proof.
     rewrite Hfile. rewrite !app_assoc. rewrite <- (app_assoc _ _ (lc_tail lc)).
     apply zskipn_app_len. rewrite !Zlen_app, Hhl. reflexivity.
 Qed.
+
+(* ================================================================== *)
+(** * 4./5. Comparison of written files *)
+
+Theorem logical_eq_layout_invariant : forall c lc1 lc2,
+  wf_content c -> layout_fits c lc1 -> layout_fits c lc2 ->
+  exists a b, logical_content (encode_with_layout c lc1) = Some a /\
+              logical_content (encode_with_layout c lc2) = Some b /\ logical_eq a b = true.
+Proof.
+  intros c lc1 lc2 Hc H1 H2. exists c, c. split; [|split].
+  - apply dump_regen_identity; assumption.
+  - apply dump_regen_identity; assumption.
+  - apply logical_eq_true_iff. reflexivity.
+Qed.
+
+Theorem files_logical_eq_iff : forall c c' lc lc',
+  wf_content c -> wf_content c' -> layout_fits c lc -> layout_fits c' lc' ->
+  exists a b, logical_content (encode_with_layout c lc) = Some a /\
+              logical_content (encode_with_layout c' lc') = Some b /\
+              (logical_eq a b = true <-> c = c').
+Proof.
+  intros c c' lc lc' Hc Hc' H H'. exists c, c'. split; [|split].
+  - apply dump_regen_identity; assumption.
+  - apply dump_regen_identity; assumption.
+  - apply logical_eq_true_iff.
+Qed.
+
+(* the same as a statement about the function (no existential) *)
+Corollary files_logical_eq_iff_fun : forall c c' lc lc',
+  wf_content c -> wf_content c' -> layout_fits c lc -> layout_fits c' lc' ->
+  (match logical_content (encode_with_layout c lc), logical_content (encode_with_layout c' lc') with
+   | Some a, Some b => logical_eq a b
+   | _, _ => false
+   end = true <-> c = c').
+Proof.
+  intros c c' lc lc' Hc Hc' H H'.
+  rewrite (dump_regen_identity c lc Hc H), (dump_regen_identity c' lc' Hc' H').
+  apply logical_eq_true_iff.
+Qed.
+
+(* ================================================================== *)
+(** * 8. The written file passes the validator's expectation (file_valid) *)
+
+Lemma forallb_zip_indep : forall (p : var -> bool) (p' : lvar -> bool),
+  (forall v b, p (var_of v b) = p' v) ->
+  forall vs (bl : list Z), length bl = length vs ->
+  forallb p (map (fun q => var_of (fst q) (snd q)) (zip vs bl)) = forallb p' vs.
+Proof.
+  intros p p' Hp vs. induction vs as [|v vs IH]; intros bl Hl; [reflexivity|].
+  destruct bl as [|b bl]; [discriminate|]. cbn [zip map forallb fst snd].
+  rewrite Hp, IH; [reflexivity|]. cbn [length] in Hl. lia.
+Qed.
+
+(* the three format-level side conditions do not depend on the begins *)
+Lemma strict_hyps_indep : forall c bl bl',
+  length bl = length (lg_vars c) -> length bl' = length (lg_vars c) ->
+  dimids_ok (hdr_of c bl) = dimids_ok (hdr_of c bl') /\
+  unlim_ok (hdr_of c bl) = unlim_ok (hdr_of c bl') /\
+  vsize_ok (hdr_of c bl) = vsize_ok (hdr_of c bl').
+Proof.
+  intros c bl bl' H H'. unfold dimids_ok, unlim_ok, vsize_ok, hdr_of.
+  cbn [h_format h_dims h_vars]. split; [|split].
+  - rewrite (forallb_zip_indep _
+               (fun v => forallb (fun i => (0 <=? i) && (i <? Zlen (lg_dims c))) (lv_dimids v))
+               (fun v b => eq_refl) _ bl H).
+    rewrite (forallb_zip_indep _
+               (fun v => forallb (fun i => (0 <=? i) && (i <? Zlen (lg_dims c))) (lv_dimids v))
+               (fun v b => eq_refl) _ bl' H').
+    reflexivity.
+  - reflexivity.
+  - rewrite (forallb_zip_indep _
+               (fun v => (lg_format c <? 5) || (lx_len (lg_dims c) v <? 18446744073709551616))
+               (fun v b => eq_refl) _ bl H).
+    rewrite (forallb_zip_indep _
+               (fun v => (lg_format c <? 5) || (lx_len (lg_dims c) v <? 18446744073709551616))
+               (fun v b => eq_refl) _ bl' H').
+    reflexivity.
+Qed.
+
+(* the gaps that are actually written (those of the fixed-size variables) *)
+Fixpoint used_gaps_aligned (dims : list dim) (vs : list lvar) (gaps : list (list byte)) : Prop :=
+  match vs with
+  | [] => True
+  | v :: r => (lx_isrec dims v = false -> Zlen (hd [] gaps) mod 4 = 0) /\
+              used_gaps_aligned dims r (tl gaps)
+  end.
+
+Lemma all_gaps_aligned_used : forall dims vs gaps,
+  Forall (fun g => Zlen g mod 4 = 0) gaps -> used_gaps_aligned dims vs gaps.
+Proof.
+  intros dims vs. induction vs as [|v vs IH]; intros gaps H; [exact I|].
+  cbn [used_gaps_aligned]. destruct H as [|g gaps Hg Hgs]; cbn [hd tl].
+  - split; [intros _; reflexivity|apply IH; apply Forall_nil].
+  - split; [intros _; exact Hg|apply IH; exact Hgs].
+Qed.
+
+Section LayoutOk.
+  Variable dims : list dim.
+  Variable packed : bool.
+  Variable numrecs : Z.
+
+  Local Notation pairs l := (map (fun v => (v_begin v, var_len dims v)) l).
+  Local Notation hvars vs bl := (map (fun q => var_of (fst q) (snd q)) (zip vs bl)).
+
+  Lemma lx_len_nonneg : forall v, lv_ok dims packed numrecs v -> 0 <= lx_len dims v.
+  Proof. intros v (Hx & Hn & Hle & _). nia. Qed.
+
+  Lemma enc_fixed_cons_len : forall v vs gaps, lv_ok dims packed numrecs v ->
+    Zlen (enc_fixed dims (v :: vs) gaps) =
+    (if lx_isrec dims v then 0 else Zlen (hd [] gaps) + lx_len dims v) +
+    Zlen (enc_fixed dims vs (tl gaps)).
+  Proof.
+    intros v vs gaps Hv. cbn [enc_fixed]. destruct (lx_isrec dims v) eqn:E; [lia|].
+    rewrite !Zlen_app, (Zlen_fixed_payload dims packed numrecs v Hv E). lia.
+  Qed.
+
+  Lemma enc_fixed_len_mod4 : forall vs gaps, Forall (lv_ok dims packed numrecs) vs ->
+    used_gaps_aligned dims vs gaps -> Zlen (enc_fixed dims vs gaps) mod 4 = 0.
+  Proof.
+    intros vs. induction vs as [|v vs IH]; intros gaps Hok Hg; [reflexivity|].
+    inversion Hok as [|v' vs' Hv Hvs Heq]; subst v' vs'. destruct Hg as [Hg1 Hg2].
+    rewrite (enc_fixed_cons_len v vs gaps Hv). specialize (IH (tl gaps) Hvs Hg2).
+    destruct (lx_isrec dims v) eqn:E; [lia|]. specialize (Hg1 eq_refl).
+    destruct Hv as (_ & _ & _ & Hm & _). lia.
+  Qed.
+
+  Lemma fixed_increasing : forall vs gaps curf curr prev,
+    Forall (lv_ok dims packed numrecs) vs -> used_gaps_aligned dims vs gaps ->
+    prev <= curf -> curf mod 4 = 0 ->
+    begins_increasing prev
+      (pairs (filter (fun v => negb (is_recvar dims v))
+                     (hvars vs (begins_of dims packed vs gaps curf curr)))) = true.
+  Proof.
+    intros vs. induction vs as [|v vs IH]; intros gaps curf curr prev Hok Hg Hp Hc; [reflexivity|].
+    inversion Hok as [|v' vs' Hv Hvs Heq]; subst v' vs'. destruct Hg as [Hg1 Hg2].
+    cbn [begins_of]. destruct (lx_isrec dims v) eqn:E.
+    - cbn [zip map fst snd filter].
+      change (is_recvar dims (var_of v curr)) with (lx_isrec dims v). rewrite E. cbn [negb].
+      apply IH; assumption.
+    - cbv zeta. cbn [zip map fst snd filter].
+      change (is_recvar dims (var_of v (curf + Zlen (hd [] gaps)))) with (lx_isrec dims v).
+      rewrite E. cbn [negb map begins_increasing v_begin var_of].
+      change (var_len dims (var_of v (curf + Zlen (hd [] gaps)))) with (lx_len dims v).
+      specialize (Hg1 eq_refl). pose proof (Zlen_nonneg _ (hd [] gaps)) as Hg0.
+      pose proof (lx_len_nonneg v Hv) as Hl0.
+      destruct Hv as (_ & _ & _ & Hm & _).
+      rewrite IH; [lia|exact Hvs|exact Hg2|lia|lia].
+  Qed.
+
+  Lemma end_fixed_le : forall vs gaps curf curr e0,
+    Forall (lv_ok dims packed numrecs) vs -> e0 <= curf ->
+    fold_left (fun e p => Z.max e (fst p + snd p))
+      (pairs (filter (fun v => negb (is_recvar dims v))
+                     (hvars vs (begins_of dims packed vs gaps curf curr)))) e0
+    <= curf + Zlen (enc_fixed dims vs gaps).
+  Proof.
+    intros vs. induction vs as [|v vs IH]; intros gaps curf curr e0 Hok He.
+    - cbn [begins_of zip map filter fold_left enc_fixed]. rewrite Zlen_nil. lia.
+    - inversion Hok as [|v' vs' Hv Hvs Heq]; subst v' vs'.
+      rewrite (enc_fixed_cons_len v vs gaps Hv).
+      cbn [begins_of]. destruct (lx_isrec dims v) eqn:E.
+      + cbn [zip map fst snd filter].
+        change (is_recvar dims (var_of v curr)) with (lx_isrec dims v). rewrite E. cbn [negb].
+        specialize (IH (tl gaps) curf (curr + lx_slot dims packed v) e0 Hvs He). lia.
+      + cbv zeta. cbn [zip map fst snd filter].
+        change (is_recvar dims (var_of v (curf + Zlen (hd [] gaps)))) with (lx_isrec dims v).
+        rewrite E. cbn [negb map fold_left v_begin var_of fst snd].
+        change (var_len dims (var_of v (curf + Zlen (hd [] gaps)))) with (lx_len dims v).
+        pose proof (Zlen_nonneg _ (hd [] gaps)) as Hg0.
+        pose proof (lx_len_nonneg v Hv) as Hl0.
+        match goal with |- fold_left _ _ ?e <= _ =>
+          specialize (IH (tl gaps) (curf + Zlen (hd [] gaps) + lx_len dims v) curr e Hvs) end.
+        specialize (IH ltac:(lia)). lia.
+  Qed.
+
+  Lemma no_recs_zip : forall vs (bl : list Z), length bl = length vs ->
+    filter (lx_isrec dims) vs = [] -> filter (is_recvar dims) (hvars vs bl) = [].
+  Proof.
+    intros vs bl Hl H.
+    pose proof (filter_rec_zip unit dims (fun _ => tt) (fun _ => tt) (fun _ _ => eq_refl) vs bl Hl)
+      as Hm.
+    rewrite H in Hm. cbn [map] in Hm. apply map_eq_nil in Hm. exact Hm.
+  Qed.
+
+  Lemma rec_increasing : forall vs gaps curf curr prev,
+    Forall (lv_ok dims packed numrecs) vs ->
+    packed = false \/ (length (filter (lx_isrec dims) vs) <= 1)%nat ->
+    prev <= curr -> curr mod 4 = 0 ->
+    begins_increasing prev
+      (pairs (filter (is_recvar dims) (hvars vs (begins_of dims packed vs gaps curf curr)))) = true.
+  Proof.
+    intros vs. induction vs as [|v vs IH]; intros gaps curf curr prev Hok Hp Hle Hc; [reflexivity|].
+    inversion Hok as [|v' vs' Hv Hvs Heq]; subst v' vs'.
+    cbn [begins_of]. cbn [filter] in Hp. destruct (lx_isrec dims v) eqn:E.
+    - cbn [zip map fst snd filter].
+      change (is_recvar dims (var_of v curr)) with (lx_isrec dims v). rewrite E.
+      cbn [map begins_increasing v_begin var_of].
+      change (var_len dims (var_of v curr)) with (lx_len dims v).
+      pose proof (lx_len_nonneg v Hv) as Hl0.
+      assert (Hm : lx_len dims v mod 4 = 0) by (destruct Hv as (_ & _ & _ & Hm & _); exact Hm).
+      destruct Hp as [Hp|Hp].
+      + (* not packed: the slot is the padded size *)
+        rewrite IH; [lia|exact Hvs|left; exact Hp| |].
+        * unfold lx_slot. rewrite Hp. lia.
+        * unfold lx_slot. rewrite Hp. lia.
+      + (* packed and alone: nothing follows *)
+        cbn [length] in Hp.
+        assert (Hnil : filter (lx_isrec dims) vs = []).
+        { destruct (filter (lx_isrec dims) vs); [reflexivity|cbn [length] in Hp; lia]. }
+        rewrite (no_recs_zip vs _ (begins_of_length _ _ _ _ _ _) Hnil).
+        cbn [map begins_increasing]. lia.
+    - cbv zeta. cbn [zip map fst snd filter].
+      change (is_recvar dims (var_of v (curf + Zlen (hd [] gaps)))) with (lx_isrec dims v).
+      rewrite E. apply IH; assumption.
+  Qed.
+End LayoutOk.
+
+(* the format-level side conditions, stated on the content (begins irrelevant) *)
+Definition content_strict (c : logical) : Prop :=
+  let h0 := hdr_of c (map (fun _ => 0) (lg_vars c)) in
+  dimids_ok h0 = true /\ unlim_ok h0 = true /\ vsize_ok h0 = true.
+
+(* every gap that is written has a length that is a multiple of 4 *)
+Definition gaps_aligned (c : logical) (lc : layout_choice) : Prop :=
+  Zlen (lc_hfree lc) mod 4 = 0 /\ Zlen (lc_recgap lc) mod 4 = 0 /\
+  used_gaps_aligned (lg_dims c) (lg_vars c) (lc_gaps lc).
+
+(* the packed-record rule applies to a record variable that is alone *)
+Definition packed_alone (c : logical) : Prop :=
+  rec_packed (lg_dims c) (lg_vars c) = true ->
+  (length (filter (lx_isrec (lg_dims c)) (lg_vars c)) <= 1)%nat.
+
+Lemma layout_ok_hdr_of : forall c bl x,
+  layout_ok (hdr_of c bl) x =
+  begins_increasing x
+    (map (fun v => (v_begin v, var_len (lg_dims c) v))
+         (filter (fun v => negb (is_recvar (lg_dims c) v))
+                 (map (fun q => var_of (fst q) (snd q)) (zip (lg_vars c) bl)))) &&
+  begins_increasing
+    (fold_left (fun e p => Z.max e (fst p + snd p))
+       (map (fun v => (v_begin v, var_len (lg_dims c) v))
+            (filter (fun v => negb (is_recvar (lg_dims c) v))
+                    (map (fun q => var_of (fst q) (snd q)) (zip (lg_vars c) bl)))) x)
+    (map (fun v => (v_begin v, var_len (lg_dims c) v))
+         (filter (is_recvar (lg_dims c))
+                 (map (fun q => var_of (fst q) (snd q)) (zip (lg_vars c) bl)))).
+Proof. reflexivity. Qed.
+
+Theorem encode_with_layout_valid_partial : forall c lc,
+  wf_content c -> layout_fits c lc -> content_strict c -> gaps_aligned c lc -> packed_alone c ->
+  file_valid (encode_with_layout c lc) = true.
+Proof.
+  intros c lc Hwfc Hfit (Hdi & Hun & Hvs) (Hg1 & Hg2 & Hg3) Hpa.
+  pose proof (layout_begins_length c lc) as Hbl.
+  pose proof (wf_hdr_of_begins c _ Hbl (proj1 Hwfc) Hfit) as Hwf.
+  destruct (wf_content_lv_ok c (rec_packed (lg_dims c) (lg_vars c)) Hwfc) as [Hnr Hok].
+  destruct (strict_hyps_indep c (layout_begins c lc) (map (fun _ => 0) (lg_vars c)) Hbl
+              (zeros_length _)) as (E1 & E2 & E3).
+  cbv zeta in Hdi, Hun, Hvs. rewrite <- E1 in Hdi. rewrite <- E2 in Hun. rewrite <- E3 in Hvs.
+  unfold file_valid.
+  assert (Hfile : encode_with_layout c lc =
+                  encode_header (hdr_of c (layout_begins c lc)) ++
+                  (lc_hfree lc ++ enc_fixed (lg_dims c) (lg_vars c) (lc_gaps lc) ++ lc_recgap lc ++
+                   enc_records (lg_dims c) (rec_packed (lg_dims c) (lg_vars c)) (lg_vars c)
+                               (Z.to_nat (lg_numrecs c)) ++ lc_tail lc)) by reflexivity.
+  rewrite Hfile, (decode_encode_full _ _ Hwf).
+  rewrite (strict_valid_decoded_of _ Hwf Hdi Hun Hvs). cbn [andb].
+  unfold decoded_of. cbn [dc_hdr dc_len]. rewrite hdr_content_hdr_of.
+  rewrite <- (hdr_len_encode _ Hwf).
+  rewrite (hdr_len_begins_indep _ _ (map (fun _ => 0) (lg_vars c)) Hbl (zeros_length _)).
+  rewrite layout_ok_hdr_of. unfold layout_begins. cbv zeta.
+  set (dims := lg_dims c) in *. set (vs := lg_vars c) in *. set (packed := rec_packed dims vs) in *.
+  set (hl := hdr_len _).
+  assert (Hhl4 : hl mod 4 = 0) by apply hdr_len_mod4_all.
+  pose proof (Zlen_nonneg _ (lc_hfree lc)) as H1.
+  pose proof (Zlen_nonneg _ (lc_recgap lc)) as H3.
+  pose proof (enc_fixed_len_mod4 dims packed (lg_numrecs c) vs (lc_gaps lc) Hok Hg3) as Hf4.
+  apply andb_true_iff. split.
+  - apply (fixed_increasing dims packed (lg_numrecs c)); [exact Hok|exact Hg3|lia|lia].
+  - apply (rec_increasing dims packed (lg_numrecs c)); [exact Hok| | |lia].
+    + destruct packed eqn:Ep; [right; apply Hpa; exact Ep|left; reflexivity].
+    + pose proof (end_fixed_le dims packed (lg_numrecs c) vs (lc_gaps lc)
+                    (hl + Zlen (lc_hfree lc))
+                    (hl + Zlen (lc_hfree lc) + Zlen (enc_fixed dims vs (lc_gaps lc)) +
+                     Zlen (lc_recgap lc)) hl Hok ltac:(lia)) as Hle.
+      lia.
+Qed.
+
+(* The statement WITHOUT [packed_alone] is false of the model.  When the record-size rule
+   "packed" fires (sum of the record variables' padded sizes = the first one's) while a
+   second, EMPTY record variable exists (e.g. a variable whose 2nd dimension is again the
+   unlimited one: 0 elements per record), [begins_of] places the second record variable at
+   begin_rec + nelems*xsz (unpadded), which is neither 4-byte aligned nor behind the first
+   one's padded extent; [layout_ok] rejects that.  (The content is still read back
+   correctly: see [bad_roundtrip].) *)
+Definition encode_with_layout_valid_full : Prop := forall c lc,
+  wf_content c -> layout_fits c lc -> content_strict c -> gaps_aligned c lc ->
+  file_valid (encode_with_layout c lc) = true.
+
+(* CDF-1, one record; short a(t) [2 bytes per record, padded size 4]; short b(t,t) [empty] *)
+Definition bad_c : logical :=
+  mklogical 1 1 [mkdim [116] 0] []
+    [ mklvar [97] 3 [0] [] [[1;2]];
+      mklvar [98] 3 [0;0] [] [] ].
+
+Example bad_begins : layout_begins bad_c tight = [120; 122] /\
+                     rec_packed (lg_dims bad_c) (lg_vars bad_c) = true /\
+                     file_valid (encode_with_layout bad_c tight) = false.
+Proof. vm_compute. repeat split; reflexivity. Qed.
+
+Example bad_wf : wf_content bad_c.
+Proof. split; vm_compute; reflexivity. Qed.
+
+Example bad_fits : layout_fits bad_c tight.
+Proof. apply (forallb_Forall Z (off_ok (lg_format bad_c))). vm_compute. reflexivity. Qed.
+
+Example bad_roundtrip : logical_content (encode_with_layout bad_c tight) = Some bad_c.
+Proof. vm_compute. reflexivity. Qed.
+
+Theorem encode_with_layout_valid_refuted : ~ encode_with_layout_valid_full.
+Proof.
+  intros H. specialize (H bad_c tight bad_wf bad_fits).
+  assert (Hf : file_valid (encode_with_layout bad_c tight) = false) by (vm_compute; reflexivity).
+  rewrite H in Hf; [discriminate| |].
+  - unfold content_strict. cbv zeta. vm_compute. repeat split; reflexivity.
+  - unfold gaps_aligned. vm_compute. repeat split; intros; reflexivity.
+Qed.
+
+(* ================================================================== *)
+(** * Examples: the hypotheses are satisfiable on non-trivial instances *)
+
+(* CDF-2; dims time (unlimited), x = 3, y = 2; 2 records; title = "hi";
+   double d(x,y) with units = "K"; float t(time); char ch(x) [3 bytes, padded to 4];
+   short s(time,x) [6 bytes per record, padded to 8] *)
+Definition ex_c : logical :=
+  mklogical 2 2
+    [ mkdim [116;105;109;101] 0; mkdim [120] 3; mkdim [121] 2 ]
+    [ mkatt [116;105;116;108;101] 2 2 [104;105] ]
+    [ mklvar [100] 6 [1;2] [ mkatt [117;110;105;116;115] 2 1 [75] ]
+        [ [1;2;3;4;5;6;7;8]; [11;12;13;14;15;16;17;18]; [21;22;23;24;25;26;27;28];
+          [31;32;33;34;35;36;37;38]; [41;42;43;44;45;46;47;48]; [51;52;53;54;55;56;57;58] ];
+      mklvar [116] 5 [0] [] [ [61;62;63;64]; [65;66;67;68] ];
+      mklvar [99;104] 2 [1] [] [ [71]; [72]; [73] ];
+      mklvar [115] 3 [0;1] [] [ [81;82]; [83;84]; [85;86]; [91;92]; [93;94]; [95;96] ] ].
+
+(* 4 junk bytes of header free space, a 4-byte gap before d, an 8-byte gap before ch,
+   4 junk bytes before the records, 3 junk bytes behind the last record *)
+Definition ex_lc1 : layout_choice :=
+  mklc [201;202;203;204] [ [211;212;213;214]; []; [221;222;223;224;225;226;227;228] ]
+       [231;232;233;234] [241;242;243].
+(* 8 bytes of header free space, no gap before d, (an unused gap entry at the record
+   variable t), a 4-byte gap before ch, records directly behind, 1 junk byte at the end *)
+Definition ex_lc2 : layout_choice :=
+  mklc [101;102;103;104;105;106;107;108] [ []; [111;112;113;114]; [121;122;123;124] ] [] [131].
+
+Example ex_wf_hdr : wf_hdr (hdr_of ex_c (map (fun _ => 0) (lg_vars ex_c))) = true.
+Proof. vm_compute. reflexivity. Qed.
+Example ex_data_ok : data_ok ex_c = true.
+Proof. vm_compute. reflexivity. Qed.
+Example ex_wf_content : wf_content ex_c.
+Proof. split; [exact ex_wf_hdr|exact ex_data_ok]. Qed.
+
+Example ex_begins :
+  layout_begins ex_c ex_lc1 = [292; 356; 348; 360] /\
+  layout_begins ex_c ex_lc2 = [292; 348; 344; 352] /\
+  layout_begins ex_c tight = [284; 336; 332; 340].
+Proof. vm_compute. repeat split; reflexivity. Qed.
+
+Example ex_off_ok_1 : forallb (off_ok 2) (layout_begins ex_c ex_lc1) = true.
+Proof. vm_compute. reflexivity. Qed.
+Example ex_off_ok_2 : forallb (off_ok 2) (layout_begins ex_c ex_lc2) = true.
+Proof. vm_compute. reflexivity. Qed.
+Example ex_fits_1 : layout_fits ex_c ex_lc1.
+Proof. apply (forallb_Forall Z (off_ok (lg_format ex_c))). exact ex_off_ok_1. Qed.
+Example ex_fits_2 : layout_fits ex_c ex_lc2.
+Proof. apply (forallb_Forall Z (off_ok (lg_format ex_c))). exact ex_off_ok_2. Qed.
+
+(* by computation ... *)
+Example ex_roundtrip_1 : logical_content (encode_with_layout ex_c ex_lc1) = Some ex_c.
+Proof. vm_compute. reflexivity. Qed.
+Example ex_roundtrip_2 : logical_content (encode_with_layout ex_c ex_lc2) = Some ex_c.
+Proof. vm_compute. reflexivity. Qed.
+(* ... and as an instance of the theorem *)
+Example ex_roundtrip_1_thm : logical_content (encode_with_layout ex_c ex_lc1) = Some ex_c.
+Proof. exact (dump_regen_identity ex_c ex_lc1 ex_wf_content ex_fits_1). Qed.
+
+(* the data section of the first layout, byte for byte (the header is 284 bytes) *)
+Example ex_data_section_1 :
+  zskipn 284 (encode_with_layout ex_c ex_lc1) =
+  [201;202;203;204;  211;212;213;214;
+   1;2;3;4;5;6;7;8; 11;12;13;14;15;16;17;18; 21;22;23;24;25;26;27;28;
+   31;32;33;34;35;36;37;38; 41;42;43;44;45;46;47;48; 51;52;53;54;55;56;57;58;
+   221;222;223;224;225;226;227;228;  71;72;73;0;  231;232;233;234;
+   61;62;63;64;  81;82;83;84;85;86;0;0;
+   65;66;67;68;  91;92;93;94;95;96;0;0;
+   241;242;243].
+Proof. vm_compute. reflexivity. Qed.
+
+Example ex_files_differ : encode_with_layout ex_c ex_lc1 <> encode_with_layout ex_c ex_lc2.
+Proof.
+  intros E. apply (f_equal (@length byte)) in E. vm_compute in E. discriminate.
+Qed.
+
+Example ex_files_compare_equal :
+  match logical_content (encode_with_layout ex_c ex_lc1),
+        logical_content (encode_with_layout ex_c ex_lc2) with
+  | Some a, Some b => logical_eq a b
+  | _, _ => false
+  end = true.
+Proof. vm_compute. reflexivity. Qed.
+
+Example ex_strict : content_strict ex_c.
+Proof. unfold content_strict. cbv zeta. vm_compute. repeat split; reflexivity. Qed.
+Example ex_gaps_1 : gaps_aligned ex_c ex_lc1.
+Proof. unfold gaps_aligned. vm_compute. repeat split; intros; reflexivity. Qed.
+Example ex_gaps_2 : gaps_aligned ex_c ex_lc2.
+Proof. unfold gaps_aligned. vm_compute. repeat split; intros; reflexivity. Qed.
+Example ex_packed_alone : packed_alone ex_c.
+Proof. intros H. vm_compute in H. discriminate. Qed.
+
+Example ex_valid_1 : file_valid (encode_with_layout ex_c ex_lc1) = true.
+Proof. vm_compute. reflexivity. Qed.
+Example ex_valid_2 : file_valid (encode_with_layout ex_c ex_lc2) = true.
+Proof. vm_compute. reflexivity. Qed.
+Example ex_valid_1_thm : file_valid (encode_with_layout ex_c ex_lc1) = true.
+Proof.
+  exact (encode_with_layout_valid_partial ex_c ex_lc1 ex_wf_content ex_fits_1 ex_strict
+           ex_gaps_1 ex_packed_alone).
+Qed.
+
+(* the header of the written file satisfies the hypotheses of [written_files_strict_valid] *)
+Example ex_hdr_strict :
+  let h := hdr_of ex_c (layout_begins ex_c ex_lc1) in
+  wf_hdr h = true /\ dimids_ok h = true /\ unlim_ok h = true /\ vsize_ok h = true.
+Proof. vm_compute. repeat split; reflexivity. Qed.
+
+(* single edits are seen; a change of the format number only by logical_eq *)
+Example ex_edit_detected :
+  logical_eq ex_c (edit_value ex_c 3 4 1 0) = false /\
+  logical_eq ex_c (edit_vatt_value ex_c 0 0 0 76) = false /\
+  logical_eq ex_c (edit_dim_name ex_c 2 [122]) = false /\
+  logical_eq ex_c (set_format ex_c 5) = false /\ content_eq ex_c (set_format ex_c 5) = true.
+Proof. vm_compute. repeat split; reflexivity. Qed.
+
+(* exactly ONE record variable whose record size (6) is not a multiple of 4: records are
+   packed (recsize 6, no padding between records); CDF-1, 3 records;
+   int f(x); short p(time,x) *)
+Definition ex_p : logical :=
+  mklogical 1 3
+    [ mkdim [116] 0; mkdim [120] 3 ]
+    []
+    [ mklvar [102] 4 [1] [] [ [0;0;0;1]; [0;0;0;2]; [0;0;0;3] ];
+      mklvar [112] 3 [0;1] []
+        [ [1;2]; [3;4]; [5;6];  [7;8]; [9;10]; [11;12];  [13;14]; [15;16]; [17;18] ] ].
+Definition ex_lcp : layout_choice := mklc [9;9;9;9] [[8;8;8;8]] [7;7;7;7;7;7;7;7] [6;6].
+
+Example ex_p_wf : wf_content ex_p.
+Proof. split; vm_compute; reflexivity. Qed.
+Example ex_p_packed : rec_packed (lg_dims ex_p) (lg_vars ex_p) = true /\
+                      layout_begins ex_p ex_lcp = [140; 160].
+Proof. vm_compute. split; reflexivity. Qed.
+Example ex_p_fits : layout_fits ex_p ex_lcp.
+Proof. apply (forallb_Forall Z (off_ok (lg_format ex_p))). vm_compute. reflexivity. Qed.
+Example ex_p_data_section :
+  zskipn 132 (encode_with_layout ex_p ex_lcp) =
+  [9;9;9;9; 8;8;8;8; 0;0;0;1; 0;0;0;2; 0;0;0;3; 7;7;7;7;7;7;7;7;
+   1;2;3;4;5;6; 7;8;9;10;11;12; 13;14;15;16;17;18; 6;6].
+Proof. vm_compute. reflexivity. Qed.
+Example ex_p_roundtrip : logical_content (encode_with_layout ex_p ex_lcp) = Some ex_p.
+Proof. vm_compute. reflexivity. Qed.
+Example ex_p_roundtrip_thm : logical_content (encode_with_layout ex_p ex_lcp) = Some ex_p.
+Proof. exact (dump_regen_identity ex_p ex_lcp ex_p_wf ex_p_fits). Qed.
+Example ex_p_alone : packed_alone ex_p.
+Proof. intros _. vm_compute. lia. Qed.
+Example ex_p_valid : file_valid (encode_with_layout ex_p ex_lcp) = true.
+Proof. vm_compute. reflexivity. Qed.
+Example ex_p_valid_thm : file_valid (encode_with_layout ex_p ex_lcp) = true.
+Proof.
+  apply (encode_with_layout_valid_partial ex_p ex_lcp ex_p_wf ex_p_fits); [| |exact ex_p_alone].
+  - unfold content_strict. cbv zeta. vm_compute. repeat split; reflexivity.
+  - unfold gaps_aligned. vm_compute. repeat split; intros; reflexivity.
+Qed.
+
+(* two different contents written with different layouts compare unequal *)
+Example ex_different_contents :
+  match logical_content (encode_with_layout ex_c ex_lc1),
+        logical_content (encode_with_layout (edit_value ex_c 1 1 0 60) ex_lc2) with
+  | Some a, Some b => logical_eq a b
+  | _, _ => true
+  end = false.
+Proof. vm_compute. reflexivity. Qed.
+
+(* ================================================================== *)
+(** * Sharpness of the hypotheses of [dump_regen_identity] *)
+
+(* data_ok: numrecs <> 0 without an unlimited dimension is not observable *)
+Example sharp_numrecs_unobservable :
+  let c := mklogical 1 7 [mkdim [120] 2] [] [] in
+  data_ok c = false /\
+  logical_content (encode_with_layout c tight) = Some (mklogical 1 0 [mkdim [120] 2] [] []).
+Proof. vm_compute. split; reflexivity. Qed.
+
+(* data_ok: a short element (1 byte for an NC_SHORT) is not read back as written *)
+Example sharp_short_element :
+  let c := mklogical 1 0 [mkdim [120] 1] [] [mklvar [118] 3 [0] [] [[5]]] in
+  data_ok c = false /\
+  logical_content (encode_with_layout c tight) =
+  Some (mklogical 1 0 [mkdim [120] 1] [] [mklvar [118] 3 [0] [] [[5;0]]]).
+Proof. vm_compute. split; reflexivity. Qed.
+
+(* layout_fits: a begin beyond 2^32 in CDF-1 wraps *)
+Example sharp_layout_fits :
+  off_ok 1 4294967296 = false /\ off_ok 2 4294967296 = true.
+Proof. vm_compute. split; reflexivity. Qed.
+
+(* ================================================================== *)
+(** * Assumption audit *)
+Print Assumptions dump_regen_identity.
+Print Assumptions logical_eq_true_iff.
+Print Assumptions content_eq_true_iff.
+Print Assumptions logical_eq_equiv.
+Print Assumptions logical_eq_layout_invariant.
+Print Assumptions files_logical_eq_iff.
+Print Assumptions logical_eq_detects_single_edit.
+Print Assumptions written_files_strict_valid.
+Print Assumptions encode_with_layout_valid_partial.
+Print Assumptions encode_with_layout_valid_refuted.
